@@ -83,6 +83,15 @@ def value_module(prog):
     return a["module"] if a and a.get("module") else "eval::value"
 
 
+def ctor_variants(prog, path):
+    """Value variants built by a value-module constructor function (empty set
+    for anything else)."""
+    g = prog.fns.get(path or "")
+    if g is None or not g.full or not g.module.startswith(value_module(prog)):
+        return set()
+    return {kd["variant"] for bb, i, pl, kd, ao, sp in g.aggregates("eval::value::Value")}
+
+
 BUILTIN_SIG = ("std::option::Option<eval::value::SourcedValue>",
                "std::vec::Vec<eval::value::SourcedValue>")
 
